@@ -275,7 +275,7 @@ def execute(case, parallel=(), perm=None, emit_step=None):
     unit = opts['unit']
     t0 = tval(opts.get('t0', 0), unit)
     run = harness.Run()
-    harness.begin_run(t0)
+    harness.begin_run(t0, seed=case.get('seed', 0))
     try:
         processes, steps, topology, flow = build(case, parallel, perm)
         run.extra['deriver_order_processes'] = _deriver_order(processes, flow)
